@@ -593,18 +593,19 @@ def tlvParseData (t : Nat) (d : Bytes) : Option Tlv :=
   else if t = 127 then (if d.length < 4 then none else some (.org (d.take 3) ((d.drop 3).headD 0).toNat (d.drop 4)))
   else some (.payload t d)
 
-/-- lldp.py:112-135 `next_tlv(array)`: `none` = give up quietly, `some none` = the TLV class raises,
-`some (some (tlv, consumed))` -/
+/-- lldp.py:112-141 `next_tlv(array)`: `none` = give up quietly (too short, or the TLV class raised and the exception was
+caught, lldp.py:129-141), `some none` = outside the model (a management-address TLV whose length octet is 0, where Python's
+negative indices take over), `some (some (tlv, consumed))` -/
 def nextTlv (arr : Bytes) : Option (Option (Tlv × Nat)) :=
   if arr.length < 2 then none else
   let typelen := beDec (arr.take 2)
   let t := typelen / 512
   let length := typelen % 512
-  if arr.length < length then none else
+  if arr.length < 2 + length then none else
   let body := sl arr 2 (2 + length)
-  if body.length < length then some none            -- TruncatedException (lldp.py:259-260; D14)
+  if t = 8 ∧ getU8 body 0 = some 0 then some none
   else match tlvParseData t body with
-    | none => some none
+    | none => none
     | some tlv => some (some (tlv, 2 + length))
 
 /-- lldp.py:210-224: the optional TLVs up to the END TLV; fuel = remaining bytes -/
@@ -624,31 +625,29 @@ def lldpParse (raw : Bytes) : XPkt :=
   if raw.length < 14 then .unparsed "lldp" raw else
   match nextTlv raw with
   | none => .unparsed "lldp" raw
-  | some none => .unmodelled "lldp:raises" raw
+  | some none => .unmodelled "lldp:mgmt-addr-len0" raw
   | some (some (t1, r1)) =>
     if tlvType t1 ≠ 1 then .unparsed "lldp" raw else
     match nextTlv (raw.drop r1) with
     | none => .unparsed "lldp" raw
-    | some none => .unmodelled "lldp:raises" raw
+    | some none => .unmodelled "lldp:mgmt-addr-len0" raw
     | some (some (t2, r2)) =>
       if tlvType t2 ≠ 2 then .unparsed "lldp" raw else
       match nextTlv (raw.drop (r1 + r2)) with
       | none => .unparsed "lldp" raw
-      | some none => .unmodelled "lldp:raises" raw
+      | some none => .unmodelled "lldp:mgmt-addr-len0" raw
       | some (some (t3, r3)) =>
         if tlvType t3 ≠ 3 then .unparsed "lldp" raw else
         match lldpLoop (raw.length + 1) raw (r1 + r2 + r3) [t1, t2, t3] with
         | none => .unparsed "lldp" raw
-        | some none => .unmodelled "lldp:raises" raw
+        | some none => .unmodelled "lldp:mgmt-addr-len0" raw
         | some (some tlvs) => .lldp tlvs
 
-/-- eap.py:153-183 (request/response read one more octet: a 4-byte request raises `struct.error`) -/
+/-- eap.py:153-186 (a request/response shorter than its type octet is only logged, C15-6; `next` always stays `None`) -/
 def eapParse (raw : Bytes) : XPkt :=
   if raw.length < 4 then .unparsed "eap" raw else
   match unpack eapolL (raw.take 4) with
-  | some [.num code, .num id, .num length] =>
-    if (code = 1 ∨ code = 2) ∧ raw.length < 5 then .unmodelled "eap:raises" raw
-    else .eap ⟨code, id, length⟩ .nil
+  | some [.num code, .num id, .num length] => .eap ⟨code, id, length⟩ .nil
   | _ => .unparsed "eap" raw
 
 /-- eapol.py:83-101 -/
